@@ -121,6 +121,10 @@ def run_impl(role, np_, ka, kb, ops):
                     ex.data_received(data)
                 except AttributeError:
                     pass  # duplicate label: recorded as E by the logging dict
+                except Exception as exc:  # noqa: BLE001  the real transport would be closed by asyncio at this point
+                    log.append(f'X:{type(exc).__name__}')
+                    ex.buffers.in_data = False
+                    break
                 ex.buffers.in_data = False
             else:
                 pc = int(op[2:])
